@@ -305,6 +305,11 @@ func (v *Validators) PayRewardsV3(height uint64, period int64) (moreRewards *big
 
 	calcReward, safeReward := v.bus.App().Reward()
 	for _, validator := range vals {
+		if validator.GetTotalBipStake().Sign() == 0 {
+			// see PayRewardsV5Fix: punished in this block, already dropped
+			continue
+		}
+
 		candidate := v.bus.Candidates().GetCandidate(validator.PubKey)
 
 		totalReward := big.NewInt(0).Set(validator.GetAccumReward())
@@ -655,6 +660,11 @@ func (v *Validators) PayRewardsV5Bug(height uint64, period int64) (moreRewards *
 	}
 
 	for _, validator := range vals {
+		if validator.GetTotalBipStake().Sign() == 0 {
+			// see PayRewardsV5Fix: punished in this block, already dropped
+			continue
+		}
+
 		candidate := v.bus.Candidates().GetCandidate(validator.PubKey)
 
 		totalReward := big.NewInt(0).Set(validator.GetAccumReward())
@@ -851,6 +861,11 @@ func (v *Validators) PayRewardsV4(height uint64, period int64) (moreRewards *big
 	}
 
 	for _, validator := range vals {
+		if validator.GetTotalBipStake().Sign() == 0 {
+			// see PayRewardsV5Fix: punished in this block, already dropped
+			continue
+		}
+
 		candidate := v.bus.Candidates().GetCandidate(validator.PubKey)
 
 		totalReward := big.NewInt(0).Set(validator.GetAccumReward())
